@@ -479,6 +479,12 @@ class HTTPChannel(wasyncore.dispatcher):
                     task.service()  # must not fail
                 except ClientDisconnected:
                     task.close_on_finish = True
+                except BaseException:
+                    # it did fail: nothing sensible can be sent any more, but
+                    # the connection must still be wound up below instead of
+                    # keeping its request (and its descriptor) for ever
+                    self.logger.exception("Exception while sending the 500 response")
+                    task.close_on_finish = True
             else:
                 task.close_on_finish = True
 
